@@ -41,3 +41,20 @@ func (ws *WatchingSource) VerifWatchList() []string {
 	}
 	return ws.watcher.WatchList()
 }
+
+var verifAfterValueHook atomic.Value // of func(*WatchingSource)
+
+// VerifSetAfterValueHook installs (or, with nil, removes) a function that
+// watchLoop calls right after Source.Value returned and before the rest of
+// the pass (symlink resolution, watch updates, report) runs.  The call is made
+// on the watchLoop goroutine; blocking in it holds the loop between the two
+// halves of a pass.
+func VerifSetAfterValueHook(h func(ws *WatchingSource)) {
+	verifAfterValueHook.Store(h)
+}
+
+func verifAfterValue(ws *WatchingSource) {
+	if h, _ := verifAfterValueHook.Load().(func(*WatchingSource)); h != nil {
+		h(ws)
+	}
+}
